@@ -256,6 +256,51 @@ def reuse_scheme_cases(dss, configs, schemes, rng, flags=(1,), every=None, env="
     return out
 
 
+HARD_SCHEMES = [P_UNI1, P_UNI5, P_IND1]
+
+
+def hard_local_corpus():
+    """datasets (found once by tools/find_hard_local.py, with the library only as a filter) on which the default local
+    search ends above the consensus of Borda or Copeland; each comes with the scheme it was found under"""
+    import json
+    import os
+    p = os.path.join(os.path.dirname(os.path.dirname(os.path.abspath(__file__))), "corpus", "hard_local.json")
+    if not os.path.exists(p):
+        return []
+    return [(e["D"], HARD_SCHEMES[e["sch"]]) for e in json.load(open(p))]
+
+
+def corpus_cases(configs, flags=(1, 0), reuse=None):
+    out = []
+    for ci, cfg in enumerate(configs):
+        for k, (D, s) in enumerate(hard_local_corpus()):
+            for f in flags:
+                c = {"D": D, "naming": ["ints", "letters"][k % 2], "sch": list(s), "cfg": cfg, "flag": f, "env": "nocplex",
+                     "kseed": k}
+                if reuse == "refused_first":
+                    U = grids.universe(D)
+                    c["reuse"] = {"kind": "other", "D0": D + [[[U[0]]]], "sch0": [P_PSE5, P_EXT][k % 2]}
+                elif reuse == "other":
+                    c["reuse"] = {"kind": "other", "D0": [list(reversed(r)) for r in D], "sch0": list(s)}
+                out.append(c)
+    return out
+
+
+def refused_first_cases(dss, configs, schemes, flags=(1, 0)):
+    """the SAME algorithm object is first given an incomplete dataset under a scheme its starting algorithms refuse
+    (the call raises), then the measured run under a scheme they accept"""
+    out = []
+    for ci, cfg in enumerate(configs):
+        for k, D in enumerate(dss):
+            U = grids.universe(D)
+            D0 = [r for r in D] + [[[U[0]]]] if len(U) > 1 else D
+            for f in flags:
+                out.append({"D": D, "naming": ["ints", "letters"][k % 2], "sch": list(schemes[(k + ci) % len(schemes)]),
+                            "cfg": cfg, "flag": f, "env": "nocplex", "kseed": k,
+                            "reuse": {"kind": "other", "D0": D0, "sch0": [P_PSE5, P_EXT][k % 2]}})
+    return out
+
+
 def reuse_other_cases(dss, configs, schemes, rng, flags=(1,), every=None, env="nocplex", reverse=False):
     """the SAME algorithm object first serves another (dataset, scheme) whose score is read, then the measured run"""
     out = []
@@ -360,6 +405,33 @@ def cycle_plus_sparse(rng):
     return D
 
 
+def lookalike_datasets(rng, count=300):
+    """datasets containing two DIFFERENT rankings that print alike under the 'weird' naming (a name such as 'a, b'
+    alone in a bucket prints like the tied names 'a' and 'b'), plus one or two other rankings"""
+    names = core.naming("weird")
+    groups = {}
+    prs = [r for r in grids.partial(4) if r]
+    for r in prs:
+        for style in (0, 1):
+            view = str([sorted(str(names[x]) for x in b) for b in r]).replace("'", "") if style == 0 else \
+                "[" + ", ".join("{" + ", ".join(sorted(str(names[x]) for x in b)) + "}" for b in r) + "]"
+            groups.setdefault((style, view), []).append(r)
+    pairs = []
+    for rs in groups.values():
+        for i in range(len(rs)):
+            for j in range(i + 1, len(rs)):
+                if (rs[i], rs[j]) not in pairs:
+                    pairs.append((rs[i], rs[j]))
+    out = []
+    for k in range(count):
+        a, b = pairs[k % len(pairs)]
+        D = [a, b] + [prs[rng.randrange(len(prs))] for _ in range(rng.randint(1, 2))]
+        if k % 3 == 0:
+            D = [a, a, b] + D[2:]
+        out.append(D)
+    return out
+
+
 def majority_datasets():
     """[p, p, q], [p, q, q] and [p, p, q, r] for all orders p, q, r of three elements (ties included): one ranking is
     strictly better than another one; with the 'weird' naming some of these rankings PRINT alike"""
@@ -440,3 +512,16 @@ def pair_sequence_cases(pairs, configs, schemes, flags=(1,)):
                             "env": "standin" if cfg in algorun.NEEDS_CPLEX else "nocplex", "kseed": k, "entry": 0,
                             "reuse": {"kind": "other", "D0": A, "sch0": list(s)}})
     return out
+
+
+def cycle_with_singletons(rng):
+    """a Condorcet cycle (rotations of one order of 3-4 elements) plus one single-element ranking per element, in a
+    random overall order: every pair of elements is 'missing one of the two' in exactly two rankings, symmetrically"""
+    n = rng.randint(3, 4)
+    base = rng.sample(range(1, n + 1), n)
+    comp = [[[e] for e in base[k:] + base[:k]] for k in range(n)]
+    alone = [[[e]] for e in rng.sample(base, n)]
+    D = alone + comp if rng.random() < .5 else comp + alone
+    if rng.random() < .3:
+        rng.shuffle(D)
+    return D
